@@ -113,17 +113,17 @@ def product40(R, unit):
 
 
 def multiply(R, unit, xs, ys):
-    """exact product of the 16-bit factors under the sign selection and the half-word mode -> (p 32 bits, pe)"""
+    """exact product of the 16-bit factors under the sign selection and the half-word mode -> (p = low 32 bits, pe = bit 32
+    of the exact 33-bit product).  The low 32 bits are written as the 32-bit product of the extended factors (the exact
+    product modulo 2^32, by the ring homomorphism Z -> Z/2^32); bit 32 comes from a 33-bit product of 33-bit extensions."""
     x = R['x[%d]' % unit]
     y = R['y[%d]' % unit]
     hwm = R['hwm']
-    hi = z3.Or(hwm == 1, z3.And(hwm == 3, unit == 0)) if isinstance(unit, int) else None
     take_hi = z3.Or(hwm == 1, hwm == 3) if unit == 0 else (hwm == 1)
     take_lo = (hwm == 2) if unit == 0 else z3.Or(hwm == 2, hwm == 3)
     y = z3.If(take_hi, z3.LShR(y, 8), z3.If(take_lo, y & 0xFF, y))
-    X = z3.SignExt(24, x) if xs else z3.ZeroExt(24, x)
-    Y = z3.SignExt(24, y) if ys else z3.ZeroExt(24, y)
-    P = X * Y                                                                          # exact in 40 bits
-    p = z3.Extract(31, 0, P)
-    pe = z3.ZeroExt(15, z3.Extract(32, 32, P)) if (xs or ys) else z3.BitVecVal(0, 16)
+    ext = lambda v, signed, n: z3.SignExt(n, v) if signed else z3.ZeroExt(n, v)
+    p = ext(x, xs, 16) * ext(y, ys, 16)
+    P33 = ext(x, xs, 17) * ext(y, ys, 17)
+    pe = z3.ZeroExt(15, z3.Extract(32, 32, P33))
     return p, pe
